@@ -33,6 +33,8 @@ func runC09(c *Ctx, r *Report) {
 	importRules(c, r, "C11", []string{"R-C11.1", "R-C11.2", "R-C11.6"}, "R-C09.7")
 	r.Doc("R-C09.8", "the entry reader refuses a block only when reading or decoding it failed: no extra acceptance test on the decoded entry (whatever Append wrote must load again)")
 	r.Doc("R-C09.9", "loaders and constructors examine every error result (manifest read, manifest decode, codec construction) before going on")
+	r.Doc("R-C09.10", "the loops that publish the heads, select the loaded heads and queue links process every element")
+	loopsComplete(c, r, "R-C09.10", func(fn *Fn) bool { return rootNamed(fn, "ToJSONLog", "entrySliceToCids", "fromMultihash", "fromEntryHash", "fromJSON", "fromEntry", "NewFromMultihash", "addHashesToQueue", "addNextEntry", "NewOrderedMapFromEntries") }, "heads or links after the point where the loop stops are not published, loaded or fetched: the rebuilt log lacks part of the history")
 	errDiscipline(c, r, "R-C09.9", func(fn *Fn) bool {
 		return rootNamed(fn, "fromMultihash", "fromEntryHash", "fromJSON", "fromEntry", "NewFromMultihash", "NewFromEntryHash", "NewFromJSON", "NewFromEntry", "NewLog", "FromMultihashWithIO")
 	}, "the loader carries on with the zero value of the failed step (a nil manifest, an undecoded block) and builds a log from it", deliberateDiscards)
